@@ -358,6 +358,10 @@ pub fn run_with_leaving_consumer(sp: &Spawn, capacity: i32, take: usize) -> (Pro
 		}
 	}
 	let mut rd = Some(File::from(rd));
+	let pipe_name = {
+		use std::os::unix::fs::MetadataExt;
+		format!("pipe:[{}]", rd.as_ref().unwrap().metadata().map(|m| m.ino()).unwrap_or(0))
+	};
 	if take == usize::MAX {
 		rd = None; // the consumer is gone before xt starts
 	}
@@ -391,10 +395,15 @@ pub fn run_with_leaving_consumer(sp: &Spawn, capacity: i32, take: usize) -> (Pro
 			let sys = std::fs::read_to_string(format!("/proc/{pid}/syscall")).unwrap_or_default();
 			let stat = std::fs::read_to_string(format!("/proc/{pid}/stat")).unwrap_or_default();
 			let state = stat.rsplit(')').next().and_then(|r| r.split_whitespace().next()).unwrap_or("").to_string();
+			// blocked in write(fd, ...) where fd is descriptor 1 or any other descriptor for our pipe
 			let mut it = sys.split_whitespace();
-			if it.next() == Some("1") && it.next() == Some("0x1") && state == "S" {
-				blocked = true;
-				break;
+			if it.next() == Some("1") && state == "S" {
+				let fd = it.next().and_then(|a| u64::from_str_radix(a.trim_start_matches("0x"), 16).ok());
+				let on_pipe = fd.is_some_and(|fd| fd == 1 || std::fs::read_link(format!("/proc/{pid}/fd/{fd}")).is_ok_and(|l| l.to_string_lossy() == pipe_name));
+				if on_pipe {
+					blocked = true;
+					break;
+				}
 			}
 			if state == "Z" || state.is_empty() || start.elapsed() > Duration::from_secs(10) {
 				break;
